@@ -97,7 +97,7 @@ def oracle(line: str, obs: Obs):
         if t[0] == "rx" and len(t) == 3:
             c = f"c{t[1]}"
             m = parse_msg(t[2])
-            if m["cmd"] == 282 and m["R"] and before_c.get(c) in ("READY", "WAITDWA"):
+            if m["cmd"] == 282 and m["R"] and before_c.get(c) in ("READY", "WAITDWA", "DISCONNECTING"):
                 outs = [kv(l) for l in lines if l.startswith(f"OUT {c} ")]
                 if len(outs) != 1 or outs[0]["cmd"] != "282" or outs[0]["rc"] != "2001" or outs[0]["hbh"] != str(m["hbh"]):
                     fails.append({"what": "DPR not answered with a 2001 DPA", "event": ev[:200], "real": str(outs)[:300]})
@@ -247,6 +247,11 @@ def scenarios(rng: random.Random, tier: str):
         # (the default selection prefers the peer that has sent the fewest requests: the others send some watchdogs first)
         chat = " | ".join(f"rx {k} " + nodegen.dwr(n(), n(), f"peer{k + 1}.x") for k in (0, 1, 2) if k != leaver for _ in range(3))
         out.append(pre3 + f" | {chat} | {rq} | rx {leaver} " + nodegen.dpr(n(), n(), f"peer{leaver + 1}.x") + f" | {rq} | {rq} | {rq}")
+    # the peer repeats its DPR (the first DPA may have been lost): answered 2001 again, the reason stays DPR, no redial
+    out.append(cfg_line(1, 0, 3) + " | start ok,ok | rx 0 " + nodegen.cea(2001, "peer1.x", n(), n()) + " | rx 0 " + nodegen.dpr(n(), n()) +
+               " | rx 0 " + nodegen.dpr(n(), n()) + " | eof 0 | adv 3 | adv 3")
+    out.append(cfg_line(0, 0, 3) + " | start | acc | rx 0 " + nodegen.cer("peer1.x", "4", n(), n()) + " | rx 0 " + nodegen.dpr(n(), n()) +
+               " | rx 0 " + nodegen.dpr(n(), n()) + " | tick")
     # requests of the peer still unanswered by the application when its DPR arrives: the DPA is 2001 all the same
     for k in (1, 2):
         pend = " | ".join("rx 0 " + nodegen.ccr(n(), n(), "peer1.x") for _ in range(k))
